@@ -10,7 +10,8 @@ RULE = ("score atlas: for every version and score slot a vector reaching each at
         "of all base vectors plus random sampling (band edges 0.0,0.1,3.9,4.0,6.9,7.0,8.9,9.0,10.0 listed in the "
         "evidence); each atlas entry and every sampled vector: float type / range / one-decimal repr, rating vs "
         "the official scale (Lean spec), agreement of severities(), CVSS4.severity, JSON ratings, RH score text; "
-        "distinct = distinct (version, slot, tenth) reached")
+        "distinct = distinct (version, slot, tenth) reached"
+        " + special families incl. rating-boundary ties; 3.0/3.1 twins rated back to back in both orders; 4 threads calling severities()/scores() on ONE fresh object")
 ASSUMPTIONS = ["CPython repr(float) prints a one-decimal value with one decimal digit"]
 
 ONE_DEC = re.compile(r"^(10|\d)\.\d$")
@@ -122,7 +123,7 @@ def run(ctx):
                     check_obj(ctx, "3", x, o, atlas)
     # several threads asking ONE fresh object at the same moment
     from .. import conc
-    shared = [(v, s) for v, s in todo[:: max(1, len(todo) // ctx.n(500, 5000))]]
+    shared = [(v, s) for v, s in todo[:: max(1, len(todo) // ctx.n(6000, 40000))]]
     conc.shared_objects(ctx, lambda vs: obs.construct(vs[0], vs[1])[0],
                         lambda o: (tuple(o.severities()), tuple(o.scores())),
                         lambda o: (tuple(o.severities()), tuple(o.scores())), shared, "ratings",
@@ -178,7 +179,7 @@ def replay(data):
             r["ver"], r["s"], "; ".join(c0.v) or "always the single-threaded result")
     o, e = obs.construct(r["ver"], r["s"], warm=True)
     if o is None:
-        return False, "rejected %s" % e
+        return obs.rejected_verdict(r["ver"], r["s"], e)
     atlas = {}
 
     class C:  # minimal ctx
